@@ -40,6 +40,7 @@ type Obl struct {
 	PC     []T
 	Goal   T
 	Expect string // "unsat" (valid) or "sat" (cover)
+	Pieces []T    // conjuncts of Goal (set when there are several)
 	Path   string
 	Where  string
 	Site   string // return site (ensures) — part of a finding's identity
@@ -334,24 +335,21 @@ func (e *Exec) emit(st *State, name, kind string, labels []string, goal T, where
 		e.recordTrivial(name, kind, labels, where)
 		return
 	}
+	// the goal is kept whole; its conjuncts are decided separately only if the
+	// whole goal is not proved quickly (solveOne)
 	pieces := SplitGoal(goal, 24)
 	pk := pcKey(st.PC)
-	for i, g := range pieces {
-		if g.Const && g.V == 1 {
-			continue
-		}
-		nm := e.unit + "/" + name
-		if len(pieces) > 1 {
-			nm = fmt.Sprintf("%s/%d", nm, i+1)
-		}
-		o := &Obl{Unit: e.unit, Name: nm, Kind: kind, Labels: labels, PC: append([]T(nil), st.PC...), Goal: g, Expect: "unsat", Path: st.PathID, Where: where, Exec: e}
-		key := o.Name + "|" + g.S + "|" + pk
-		if e.oblSeen[key] {
-			continue
-		}
-		e.oblSeen[key] = true
-		e.obls = append(e.obls, o)
+	nm := e.unit + "/" + name
+	o := &Obl{Unit: e.unit, Name: nm, Kind: kind, Labels: labels, PC: append([]T(nil), st.PC...), Goal: goal, Expect: "unsat", Path: st.PathID, Where: where, Exec: e}
+	if len(pieces) > 1 {
+		o.Pieces = pieces
 	}
+	key := o.Name + "|" + goal.S + "|" + pk
+	if e.oblSeen[key] {
+		return
+	}
+	e.oblSeen[key] = true
+	e.obls = append(e.obls, o)
 }
 
 func (e *Exec) recordTrivial(name, kind string, labels []string, where string) {
